@@ -318,12 +318,13 @@ STEMS = ["doc", "table[1]", "listing [a-c]", "re*port", "a?b", "out put", "t.1.2
 
 def run_one(ctx, env, exporter, docname, target_state, k=None, stub_mode="ok", label="", stem="doc"):
     arena, inj, trace, tap, docs = env
+    import rtflite
     ext = {"rtf": "rtf", "docx": "docx", "html": "html", "pdf": "pdf"}[exporter]
     case_crlf = target_state == "reexport_crlf"
     if case_crlf:
         target_state = "reexport"
     the_doc = docs[docname]
-    derived = target_state == "derived"
+    derived = target_state if target_state in ("derived", "derived_title", "edited_title") else None
     if derived:
         # the exported object is a model_copy(update={"df": ...}) of a document that was exported before
         target_state = "absent"
@@ -347,12 +348,20 @@ def run_one(ctx, env, exporter, docname, target_state, k=None, stub_mode="ok", l
     if derived:
         first = make_stub(stub_mode, arena) if exporter != "rtf" else None
         call_export(the_doc, exporter, target, first)
-        the_doc = the_doc.model_copy(update={"df": the_doc.df.reverse()})
+        if derived == "derived":
+            the_doc = the_doc.model_copy(update={"df": the_doc.df.reverse()})
+        elif derived == "derived_title":
+            # the same data under another title (a second output of the same table)
+            the_doc = the_doc.model_copy(update={"rtf_title": rtflite.RTFTitle(text="TT1 other title")})
+        else:
+            # ... or the document itself, edited between two exports (and restored afterwards)
+            the_doc = the_doc.model_copy()
+            the_doc.rtf_title = rtflite.RTFTitle(text="TT2 edited title")
         ctx.count("exports_of_derived_documents")
     before = snapshot(arena.out)
     stub = make_stub(stub_mode, arena) if exporter != "rtf" else None
     case = {"exporter": exporter, "doc": docname,
-            "target": "reexport_crlf" if case_crlf else "derived" if derived else target_state, "k": k,
+            "target": "reexport_crlf" if case_crlf else derived if derived else target_state, "k": k,
             "stub": stub_mode}
     if stem != "doc":
         case["stem"] = stem
@@ -411,6 +420,9 @@ def make_env():
             "footnote": {"text": "FN0 " + chr(0xDFFF), "as_table": False},
             "page_footer": {"text": "PF0 " + chr(0xDC80)}}
     docs["hardtext"] = S.build(hard, figdir)
+    # a table of everyday length (150 rows, several pages)
+    docs["long150"] = S.build({"kind": "table", "df": c14.tagged(150, 3), "body": {}, "title": {"text": "TT0"},
+                               "footnote": {"text": "FN0"}}, figdir)
     return arena, inj, trace, tap, docs
 
 
@@ -473,6 +485,10 @@ def run_shard(desc, ctx):
                     for d in ("col_a", "paged", "plain3"):
                         ctx.count("stub_runs")
                         run_one(ctx, env, e, d, "derived", stub_mode="html_resources" if e == "html" else "ok")
+                    for d in ("plain3", "long150"):
+                        for t in ("derived_title", "edited_title"):
+                            ctx.count("stub_runs")
+                            run_one(ctx, env, e, d, t, stub_mode="html_resources" if e == "html" else "ok")
                 for d in ("col_a", "paged", "multi_a"):
                     # ... or to the new result with other line ends (a file that went through a Windows tool)
                     ctx.count("stub_runs")
